@@ -1671,7 +1671,7 @@ class C12(Spec):
     level_text = ('Partial. Proved: C12_consume (injection into a non-empty tag clears every pending class, id, css and attribute), '
                   'C12_blank_tag_keeps, C12_bit4 (with bit 4 a Block Attributes line is the identity on the session), C12_bit4_guard, '
                   'C12_nz_no_raw_attrs (in any non-zero mode a document never accumulates raw HTML attributes -- frame theorem instance over the '
-                  'generated guards). C12_class_into_first_tag (for every opening tag of the generated block and list tables and every class text, injection with only a class pending returns the tag with class="..." inserted right after the tag name and clears the pending attributes). "First tag of the next block only" over block sequences and the one-block scope of options are decided '
+                  'generated guards). C12_class_into_first_tag (for every opening tag of the generated block and list tables and every class text, injection with only a class pending returns the tag with class="..." inserted right after the tag name and clears the pending attributes). C12_class_paragraph_document with C12_parse_class_name and C12_attributes_line_accumulates (end to end: a Block Attributes line with one class name followed by a paragraph line renders to the paragraph with the class in its p tag, and the session afterwards is the session before -- nothing stays pending; the first Block Attributes pattern is matched as a prefix whose end decides how the rest of the line is read, so the greedy execution of the matcher is evaluated on the symbolic name). "First tag of the next block only" over longer block sequences, the other attribute kinds and the one-block scope of options are decided '
                   'by the attribute oracle and correspondence.')
     rule = ('1-3 attribute lines (classes/id/css/attributes/options) . optional comments/blank lines . target block of 8 kinds . further blocks; '
             '16 safe modes; attributes must sit on the first tag of the target and nowhere later; non-trivial = an attribute is emitted')
@@ -1724,12 +1724,23 @@ class C12(Spec):
 
     def search_cases(self, ctx, boost):
         rng = ctx.rng('S')
-        return [self.gen_case(rng) for _ in range(sizes(ctx, 1500, 40000) * (3 if boost else 1))]
+        out = [self.gen_case(rng) for _ in range(sizes(ctx, 1500, 40000) * (3 if boost else 1))]
+        for src, exp, kind in thm_instances.instances('C12'):
+            for mode in (0, 1, 3, 8):
+                c = H([call(src, safeMode=mode, reset=True, cb=True)])
+                c['meta'] = {'thm_expect': exp, 'kind': kind}
+                out.append(c)
+        return out
 
     def oracle(self, ctx, case, impl, variants=()):
         if not all_ok(impl):
             return None
         md = case['meta']
+        if 'thm_expect' in md:
+            got = impl['calls'][0]['html']
+            if got != md['thm_expect']:
+                return ('C12/' + md['kind'], 'source %r renders %r, the theorem states %r' % (case['calls'][0]['src'][:200], got[:200], md['thm_expect'][:200]))
+            return None
         mode, parts, opt, kind = md['mode'], md['parts'], md['opt'], md['kind']
         html = impl['calls'][0]['html']
         tags = [m.group(0) for m in re.finditer(r'<[a-zA-Z][^<>]*>', html)]
